@@ -37,7 +37,7 @@ let program_and_obs (c : Caseio.case) : prog * nat list =
   | "history" ->
       let ops = List.map hop_of_token (words c "ops") in
       (case_history (n "ssz") ops, obs_history (n "ssz") h_init ops)
-  | "grid" -> (case_grid (n "nx") (n "ny") (n "n") (lay c "" 0), obs_grid (n "nx") (n "ny") (n "n"))
+  | "grid" -> (case_grid (n "nx") (n "ny") (n "n") (lay c "" 0), obs_grid (n "nx") (n "ny") (n "n") (lay c "" 0))
   | "psaug" ->
       let l = lay c "" 0 in
       (case_psaug l (n "comps") (n "qr") (n "qc") (n "qr2") (n "qc2"), obs_psaug l (n "comps") (n "qr") (n "qc") (n "qr2") (n "qc2"))
